@@ -39,6 +39,17 @@ type txnScen struct {
 type stagedTxn struct {
 	Prog  txProg
 	Defer bool
+	// Tail: further operations a deferred transaction performs in its own goroutine before it ends
+	Tail []txOp
+}
+
+// scenario shorthand: "rx" read x, "wy" write y, "dx" delete x, "Q" quiesce. The second key of the transaction
+// scenarios is a user key that contains the version separator: "y" stands for "x@1".
+func scenKey(k string) string {
+	if k == "y" {
+		return "x@1"
+	}
+	return k
 }
 
 func rw(end string, ops ...string) txProg {
@@ -46,11 +57,11 @@ func rw(end string, ops ...string) txProg {
 	for _, o := range ops {
 		switch o[0] {
 		case 'r':
-			p.Ops = append(p.Ops, txOp{Op: "G", K: o[1:]})
+			p.Ops = append(p.Ops, txOp{Op: "G", K: scenKey(o[1:])})
 		case 'w':
-			p.Ops = append(p.Ops, txOp{Op: "S", K: o[1:]})
+			p.Ops = append(p.Ops, txOp{Op: "S", K: scenKey(o[1:])})
 		case 'd':
-			p.Ops = append(p.Ops, txOp{Op: "D", K: o[1:]})
+			p.Ops = append(p.Ops, txOp{Op: "D", K: scenKey(o[1:])})
 		case 'Q':
 			p.Ops = append(p.Ops, txOp{Op: "Q"})
 		}
@@ -86,6 +97,9 @@ func numberValues(sc *txnScen) {
 			if p.Ops[i].Op == "S" {
 				n++
 				p.Ops[i].V = fmt.Sprintf("v%d", n)
+				if n%5 == 4 {
+					p.Ops[i].V = "" // an empty value is a value
+				}
 			}
 		}
 	}
@@ -96,6 +110,9 @@ func numberValues(sc *txnScen) {
 	sc.Staged = append([]stagedTxn(nil), sc.Staged...)
 	for i := range sc.Staged {
 		fix(&sc.Staged[i].Prog)
+		tp := txProg{Ops: sc.Staged[i].Tail}
+		fix(&tp)
+		sc.Staged[i].Tail = tp.Ops
 	}
 	th := make([][]txProg, len(sc.Threads))
 	for t := range sc.Threads {
@@ -132,6 +149,7 @@ func txnScenario(sc txnScen, obs *txnObs) vsched.Scenario {
 			var deferred []*liveTxn
 			for i, st := range sc.Staged {
 				l := startTxn(db, h, fmt.Sprintf("S%d", i+1), st.Prog, nil)
+				l.tail = st.Tail
 				if st.Defer {
 					deferred = append(deferred, l)
 				} else {
@@ -145,6 +163,7 @@ func txnScenario(sc txnScen, obs *txnObs) vsched.Scenario {
 				wg.Add(1)
 				vsched.GoUser(l.rec.Name+"-end", func() {
 					defer wg.Done()
+					l.more(l.tail)
 					l.finish()
 				})
 			}
@@ -406,8 +425,19 @@ func apiScenario(sc apiScen, obs *txnObs) vsched.Scenario {
 					case "S":
 						nval++
 						oo.V = fmt.Sprintf("v%d", nval)
+						if nval%3 == 0 {
+							oo.V = "" // an empty value is a value
+						}
 						if err := l.tx.Set(o.K, []byte(oo.V)); err != nil {
 							oo.Err = err.Error()
+						}
+					case "L":
+						oo.Op = "S"
+						oo.V = "<70000 bytes>"
+						if err := l.tx.Set(o.K, oversizeValue); err != nil {
+							oo.Err = err.Error()
+						} else {
+							oo.V = string(oversizeValue)
 						}
 					case "D":
 						if err := l.tx.Delete(o.K); err != nil {
@@ -474,7 +504,7 @@ func apiPrograms(keys []string, maxOps int, withDiscard bool) []txProg {
 	for _, k := range keys {
 		alpha = append(alpha, txOp{Op: "G", K: k}, txOp{Op: "S", K: k})
 	}
-	alpha = append(alpha, txOp{Op: "D", K: keys[0]})
+	alpha = append(alpha, txOp{Op: "D", K: keys[0]}, txOp{Op: "L", K: keys[0]})
 	var progs []txProg
 	var rec func(cur []txOp)
 	rec = func(cur []txOp) {
